@@ -7,6 +7,7 @@ CONSTANTS
   MaxRuns = 2
   Tolerated <- KnownRecovery
   FnOut = FALSE
+  Poller = FALSE
   Gen = "off"
 PROPERTIES Terminates
 CHECK_DEADLOCK TRUE
